@@ -11,6 +11,7 @@ for N in $NS; do
   (cd /verif && timeout 1800 ./check $P --tier quick > /tmp/reseed/$P.$N.out 2>&1); rc=$?
   v=$(grep -c '^VIOLATION' /tmp/reseed/$P.$N.out)
   git -C /repo checkout -q -- .
+  echo " $P:rc=$rc:violations=$v" > $D/result.txt
   if [ $rc = 1 ] && [ $v -gt 0 ]; then echo "$P-$N caught (violations=$v)"; else echo "$P-$N MISSED rc=$rc"; tail -3 /tmp/reseed/$P.$N.out | cut -c1-300; fi
 done
 rm -rf /verif/replays/$P
